@@ -261,7 +261,7 @@ def findLoop (remove : Bool) (height : Int) :
         let ws := if remove then c1.witnesses else c1.witnesses ++ [c1.primary]
         let c2 := { c1 with witnesses := ws, primary := w }
         match removeWitnesses ws (rm ++ [i]) with
-        | none => (c2, .error .noWitnesses)
+        | none => ({ c2 with witnesses := [] }, .error .noWitnesses)   -- nobody is left as a witness
         | some ws' => ({ c2 with witnesses := ws' }, .ok lb)
       | .err e =>
         if isBenign e then findLoop remove height rest c1 rm (some e)
